@@ -186,7 +186,7 @@ func init() {
 		dl := deadline(r, 50*time.Second, 15*time.Minute)
 		b := 3
 		if thorough(r) {
-			b = 5
+			b = 4
 		}
 		for kind := 0; kind < 3; kind++ {
 			exploreChoice(r, "c03."+kindNames[kind], b, dl)
